@@ -65,6 +65,53 @@ def _job(args):
     return out
 
 
+def _job_child(conn, job):
+    try:
+        conn.send(_job(job))
+    finally:
+        conn.close()
+
+
+def _run_jobs(jobs, nproc, wall_limit_s):
+    """One process per verification job, at most `nproc` at a time, each with a wall-clock limit: z3's string solver does not always honour its own timeout, and a job
+    that does not come back is UNDECIDED (exit 2), never a pass and never a violation."""
+    ctx = mp.get_context("fork")
+    pending = list(enumerate(jobs))
+    running = {}
+    reports = [None] * len(jobs)
+    while pending or running:
+        while pending and len(running) < nproc:
+            i, job = pending.pop(0)
+            parent, child = ctx.Pipe(duplex=False)
+            p = ctx.Process(target=_job_child, args=(child, job), daemon=True)
+            p.start()
+            child.close()
+            running[i] = (p, parent, time.time(), job)
+        for i in list(running):
+            p, conn, started, job = running[i]
+            if conn.poll(0.02):
+                try:
+                    reports[i] = conn.recv()
+                except EOFError:
+                    reports[i] = None
+                p.join(5)
+                del running[i]
+            elif not p.is_alive():
+                p.join()
+                del running[i]
+            elif time.time() - started > wall_limit_s:
+                p.kill()
+                p.join()
+                del running[i]
+            else:
+                continue
+            if reports[i] is None:
+                why = f"no answer within the wall-clock limit of {wall_limit_s} s (solver did not return)" if time.time() - started > wall_limit_s else "the verification process died without a report"
+                reports[i] = {"target": job[2], "status": "undecided", "reason": why, "obligations": [], "paths": 0, "completed_paths": 0, "inlined": [], "abstracted": [], "extern_used": [],
+                              "sha": "", "file": "", "lines": [0, 0], "wall_s": round(time.time() - started, 1), "solver_s": 0, "bounded_labels": [], "trusted": False, "notes": [], "smt2": {}, "kind": job[1]}
+    return reports
+
+
 def cvc5_check(smt2: str, timeout_s: int):
     """Second solver for obligations z3 left unknown. Returns 'unsat' | 'sat' | 'unknown'."""
     import tempfile
@@ -219,9 +266,7 @@ def main(argv=None):
     if not jobs:
         print(f"CHECKER-ERROR {prop}: zero verification jobs (vacuity guard)")
         return EXIT_CRASH
-    ctx = mp.get_context("fork")
-    with ctx.Pool(min(a.jobs, len(jobs))) as pool:
-        reports = pool.map(_job, jobs, chunksize=1)
+    reports = _run_jobs(jobs, min(a.jobs, len(jobs)), 600 if a.tier == "quick" else 3600)
 
     # --- second solver for unknowns
     backends = {"z3": {"obligations": 0, "solver_s": 0.0}, "cvc5": {"obligations": 0, "solver_s": 0.0}}
